@@ -54,7 +54,10 @@ def gen_signature(r):
             continue
         ptr = x < 0.68
         t = r.choice(SCALARS + (sorted(VECTORS) if ptr else []))
-        params.append({"type": t, "ptr": ptr, "const": r.random() < 0.4})
+        p = {"type": t, "ptr": ptr, "const": r.random() < 0.4}
+        if t in ("float", "int", "double") and r.random() < 0.3:
+            p["tname"] = "my_%s_t" % t          # spelled through a typedef in the kernel source
+        params.append(p)
     return params
 
 
@@ -64,9 +67,10 @@ def kernel_source(params, variant):
         if p.get("arr"):
             s = "%s p%d[%d]" % (p["type"], i, p["arr"])
         else:
-            s = ("const " if p["const"] else "") + p["type"] + (" *" if p["ptr"] else " ") + "p%d" % i
+            s = ("const " if p["const"] else "") + p.get("tname", p["type"]) + (" *" if p["ptr"] else " ") + "p%d" % i
         ps_.append(s)
-    return ("@kernel void k(%s) {\n  for (int i = 0; i < 1; ++i; @outer) {\n    for (int j = 0; j < 1; ++j; @inner) {\n"
+    tds = "".join("typedef %s %s;\n" % (p["type"], p["tname"]) for p in {q.get("tname"): q for q in params if q.get("tname")}.values())
+    return (tds + "@kernel void k(%s) {\n  for (int i = 0; i < 1; ++i; @outer) {\n    for (int j = 0; j < 1; ++j; @inner) {\n"
             "      int x = %d; x += 1;\n    }\n  }\n}\n" % (", ".join(ps_), variant))
 
 
@@ -245,7 +249,7 @@ def main(tier):
         "compatibility rule (from the statement): counts equal; pointer parameter <=> memory or occa::null; element types castable "
         "iff one is byte or the flattened primitive lists agree with the shorter repeating in the longer",
         "scalar arguments of any builtin type are compatible with any scalar parameter (the statement lists no scalar-type rule)",
-        "typedef and fixed-array parameters are not generated; kernel bodies never touch their arguments",
+        "typedef'd parameter types count as the type they name; kernel bodies never touch their arguments",
     ]
     ex.explore(common.budget(tier, 75, 900))
     return ex.finish()
